@@ -238,6 +238,8 @@ fn factor_impl(
             arith::perfect_power(n)
         }
     };
+    #[cfg(yamaquasi_verif)]
+    verif_hooks::ev(format!("pp {n} {}", verif_hooks::opt_pk(&is_perfect_power)));
     if let Some((p, k)) = is_perfect_power {
         let mut facs = vec![];
         factor_impl(p, alg, prefs, &mut facs, tpool);
@@ -246,15 +248,21 @@ fn factor_impl(
         }
         return;
     } else if pseudoprime(n) {
+        #[cfg(yamaquasi_verif)]
+        verif_hooks::ev(format!("prime {n} true"));
         factors.push(n);
         return;
     }
+    #[cfg(yamaquasi_verif)]
+    verif_hooks::ev(format!("prime {n} false"));
     // Apply automatic strategy.
     let alg_real = match alg {
         Algo::Auto => {
             // For small inputs, Pollard rho is faster than ECM and quadratic sieve.
             if n.bits() < 52 {
                 if let Some((a_s, b)) = pollard_rho::rho(&n, prefs.verbosity) {
+                    #[cfg(yamaquasi_verif)]
+                    verif_hooks::ev(format!("rho {n} {} {b}", verif_hooks::list(&a_s)));
                     for a in a_s {
                         factor_impl(a, alg, prefs, factors, tpool);
                     }
@@ -264,11 +272,15 @@ fn factor_impl(
                     factor_impl(b, alg, prefs, factors, tpool);
                     return;
                 }
+                #[cfg(yamaquasi_verif)]
+                verif_hooks::ev(format!("rho {n} none"));
             }
             // Only in automatic mode, for large inputs, Pollard P-1 and ECM can be useful.
             if n.bits() > 64 && !prefs.pm1_done.load(Ordering::Relaxed) {
                 let start_pm1 = std::time::Instant::now();
                 let pm1_res = pollard_pm1::pm1_quick(&n, prefs.verbosity);
+                #[cfg(yamaquasi_verif)]
+                verif_hooks::ev(format!("pm1q {n} {}", verif_hooks::opt_split(&pm1_res)));
                 // P-1 should be only run once.
                 prefs.pm1_done.store(true, Ordering::Relaxed);
                 if let Some((a_s, b)) = pm1_res {
@@ -299,6 +311,8 @@ fn factor_impl(
             } else {
                 ecm::ecm_auto(n, prefs, tpool)
             };
+            #[cfg(yamaquasi_verif)]
+            verif_hooks::ev(format!("ecmauto {n} {}", verif_hooks::opt_pair(&ecm_res)));
             if let Some((a, b)) = ecm_res {
                 factor_impl(a, alg, prefs, factors, tpool);
                 if prefs.verbose(Verbosity::Info) {
@@ -325,6 +339,8 @@ fn factor_impl(
             // Pure Pollard P-1
             let start_pm1 = std::time::Instant::now();
             if let Some((a_s, b)) = pollard_pm1::pm1_only(&n, prefs.verbosity) {
+                #[cfg(yamaquasi_verif)]
+                verif_hooks::ev(format!("pm1 {n} {} {b}", verif_hooks::list(&a_s)));
                 if prefs.verbose(Verbosity::Info) {
                     eprintln!(
                         "Pollard P-1 success with factors p={a_s:?} in {:.3}s",
@@ -345,11 +361,15 @@ fn factor_impl(
                     start_pm1.elapsed().as_secs_f64()
                 );
             }
+            #[cfg(yamaquasi_verif)]
+            verif_hooks::ev(format!("pm1 {n} none"));
             factors.push(n);
             return;
         }
         Algo::Ecm => {
             if let Some((a, b)) = ecm::ecm_only(n, prefs, tpool) {
+                #[cfg(yamaquasi_verif)]
+                verif_hooks::ev(format!("ecm {n} {a} {b}"));
                 factor_impl(a, alg, prefs, factors, tpool);
                 if prefs.verbose(Verbosity::Info) {
                     eprintln!("Recursively factor {b}");
@@ -357,6 +377,8 @@ fn factor_impl(
                 factor_impl(b, alg, prefs, factors, tpool);
                 return;
             }
+            #[cfg(yamaquasi_verif)]
+            verif_hooks::ev(format!("ecm {n} none"));
             if prefs.verbose(Verbosity::Info) {
                 eprintln!("Factorization is incomplete.");
             }
@@ -368,6 +390,8 @@ fn factor_impl(
             // However due to determinism the recursion will go through the
             // same curves, which is not very useful.
             if let Some((a, b)) = ecm128::ecm128(n, true, prefs) {
+                #[cfg(yamaquasi_verif)]
+                verif_hooks::ev(format!("ecm128 {n} {a} {b}"));
                 factor_impl(a, alg, prefs, factors, tpool);
                 if prefs.verbose(Verbosity::Info) {
                     eprintln!("Recursively factor {b}");
@@ -375,6 +399,8 @@ fn factor_impl(
                 factor_impl(b, alg, prefs, factors, tpool);
                 return;
             }
+            #[cfg(yamaquasi_verif)]
+            verif_hooks::ev(format!("ecm128 {n} none"));
             if prefs.verbose(Verbosity::Info) {
                 eprintln!("Factorization is incomplete.");
             }
@@ -384,10 +410,14 @@ fn factor_impl(
         Algo::Qs64 => {
             assert!(n.bits() <= 64);
             if let Some((a, b)) = qsieve64::qsieve(n.low_u64(), prefs.verbosity) {
+                #[cfg(yamaquasi_verif)]
+                verif_hooks::ev(format!("qs64 {n} {a} {b}"));
                 // Recurse
                 factor_impl(a.into(), alg, prefs, factors, tpool);
                 factor_impl(b.into(), alg, prefs, factors, tpool);
             } else {
+                #[cfg(yamaquasi_verif)]
+                verif_hooks::ev(format!("qs64 {n} none"));
                 if prefs.verbose(Verbosity::Info) {
                     eprintln!("qsieve64 failed");
                 }
@@ -398,6 +428,8 @@ fn factor_impl(
         Algo::Rho => {
             assert!(n.bits() <= 64);
             if let Some((a_s, b)) = pollard_rho::rho(&n, prefs.verbosity) {
+                #[cfg(yamaquasi_verif)]
+                verif_hooks::ev(format!("rho {n} {} {b}", verif_hooks::list(&a_s)));
                 for a in a_s {
                     factor_impl(a, alg, prefs, factors, tpool);
                 }
@@ -407,6 +439,8 @@ fn factor_impl(
                 factor_impl(b, alg, prefs, factors, tpool);
                 return;
             } else {
+                #[cfg(yamaquasi_verif)]
+                verif_hooks::ev(format!("rho {n} none"));
                 if prefs.verbose(Verbosity::Info) {
                     eprintln!("Rho algorithm failed");
                 }
@@ -415,9 +449,13 @@ fn factor_impl(
         Algo::Squfof => {
             assert!(n.bits() <= 64);
             if let Some((a, b)) = squfof::squfof(n.low_u64()) {
+                #[cfg(yamaquasi_verif)]
+                verif_hooks::ev(format!("squfof {n} {a} {b}"));
                 factor_impl(a.into(), alg, prefs, factors, tpool);
                 factor_impl(b.into(), alg, prefs, factors, tpool);
             } else {
+                #[cfg(yamaquasi_verif)]
+                verif_hooks::ev(format!("squfof {n} none"));
                 if prefs.verbose(Verbosity::Info) {
                     eprintln!("SQUFOF failed");
                 }
@@ -429,10 +467,14 @@ fn factor_impl(
         Algo::Qs | Algo::Mpqs | Algo::Siqs => {}
     }
     if prefs.abort() {
+        #[cfg(yamaquasi_verif)]
+        verif_hooks::ev(format!("abort {n} true"));
         factors.push(n);
         return;
     }
 
+    #[cfg(yamaquasi_verif)]
+    verif_hooks::ev(format!("abort {n} false"));
     let (k, score) = fbase::select_multiplier(n);
     if prefs.verbose(Verbosity::Info) {
         eprintln!("Selected multiplier {k} (score {score:.2}/10)");
@@ -443,6 +485,8 @@ fn factor_impl(
         Algo::Siqs => siqs::siqs(&n, k, prefs, tpool),
         _ => unreachable!("impossible"),
     };
+    #[cfg(yamaquasi_verif)]
+    verif_hooks::ev(format!("sieve {n} {}", verif_hooks::divs(&divs)));
     let divs = match divs {
         Ok(divs) => {
             if divs.len() == 0 {
@@ -496,11 +540,15 @@ fn factor_impl(
             }
             factors.push(f);
         } else if !pseudoprime(f) {
+            #[cfg(yamaquasi_verif)]
+            verif_hooks::ev(format!("prime {f} false"));
             if prefs.verbose(Verbosity::Info) {
                 eprintln!("Recursively factor {f}");
             }
             factor_impl(f, alg, prefs, factors, tpool);
         } else {
+            #[cfg(yamaquasi_verif)]
+            verif_hooks::ev(format!("prime {f} true"));
             factors.push(f);
         }
     }
@@ -510,11 +558,72 @@ fn check_factors(n: &Uint, factors: &[Uint]) -> Result<(), FactoringFailure> {
     if let &[p] = &factors {
         assert_eq!(n, p);
         if !pseudoprime(*p) {
+            #[cfg(yamaquasi_verif)]
+            verif_hooks::ev(format!("prime {p} false"));
             return Err(FactoringFailure);
         }
     }
     assert_eq!(*n, factors.iter().product::<Uint>());
     Ok(())
+}
+
+/// Verification hooks (only with `--cfg yamaquasi_verif`): records, per call of
+/// `factor`, the result of every sub-algorithm invoked by `factor_impl`.
+#[cfg(yamaquasi_verif)]
+pub mod verif_hooks {
+    use super::{Uint, UnexpectedFactor};
+    use std::sync::Mutex;
+
+    static TRACE: Mutex<Option<Vec<String>>> = Mutex::new(None);
+
+    pub fn start() {
+        *TRACE.lock().unwrap_or_else(|e| e.into_inner()) = Some(vec![]);
+    }
+    pub fn take() -> Vec<String> {
+        TRACE
+            .lock()
+            .unwrap_or_else(|e| e.into_inner())
+            .take()
+            .unwrap_or_default()
+    }
+    pub fn ev(s: String) {
+        if let Some(v) = TRACE.lock().unwrap_or_else(|e| e.into_inner()).as_mut() {
+            v.push(s)
+        }
+    }
+    pub fn list(l: &[Uint]) -> String {
+        if l.is_empty() {
+            return "-".into();
+        }
+        l.iter()
+            .map(|x| x.to_string())
+            .collect::<Vec<_>>()
+            .join(",")
+    }
+    pub fn opt_pk(o: &Option<(Uint, u32)>) -> String {
+        match o {
+            Some((p, k)) => format!("{p} {k}"),
+            None => "none".into(),
+        }
+    }
+    pub fn opt_split(o: &Option<(Vec<Uint>, Uint)>) -> String {
+        match o {
+            Some((a, b)) => format!("{} {b}", list(a)),
+            None => "none".into(),
+        }
+    }
+    pub fn opt_pair(o: &Option<(Uint, Uint)>) -> String {
+        match o {
+            Some((a, b)) => format!("{a} {b}"),
+            None => "none".into(),
+        }
+    }
+    pub fn divs(d: &Result<Vec<Uint>, UnexpectedFactor>) -> String {
+        match d {
+            Ok(v) => format!("ok {}", list(v)),
+            Err(UnexpectedFactor(d)) => format!("unexpected {d}"),
+        }
+    }
 }
 
 /// Primality test of u64 using a Miller test for small bases.
